@@ -702,6 +702,13 @@ func (c *TermCtx) UF(name string, w int, args []*Term) *Term {
 }
 
 func (c *TermCtx) FConv(op Op, a *Term) *Term {
+	// float32 -> float64 -> float32 is the identity except that NaNs are quieted
+	if op == OpF64to32 && a.op == OpF32to64 {
+		x := a.a
+		exp := c.Eq(c.Extract(x, 30, 23), c.BV(0xFF, 8))
+		man := c.BNot(c.Eq(c.Extract(x, 22, 0), c.BV(0, 23)))
+		return c.Ite(c.BAnd(exp, man), c.Bin(OpOr, x, c.BV(0x00400000, 32)), x)
+	}
 	w := 64
 	if op == OpF64to32 {
 		w = 32
